@@ -139,16 +139,6 @@ theorem attrKey_pair {d d0 : DecCfg} (h : EscPair d d0) (S : Strconv) (n : Str) 
 theorem trimSet_pair {d d0 : DecCfg} (h : EscPair d d0) : trimSet d = trimSet d0 := by
   unfold trimSet; rw [h.ks]
 
-theorem escapeChars_isEmpty (s : Str) : (escapeChars s).isEmpty = s.isEmpty := by
-  cases s with
-  | nil => rw [escapeChars_nil]
-  | cons c r =>
-    rw [escapeChars_cons]
-    have := escOne_length_pos c
-    cases hc : escOne c with
-    | nil => rw [hc] at this; simp at this
-    | cons _ _ => rfl
-
 theorem textOf_pair {d d0 : DecCfg} (h : EscPair d d0) (s : Str) :
     Conv.textOf d s = escapeChars (Conv.textOf d0 s) := by
   unfold Conv.textOf escDecIf
